@@ -62,6 +62,12 @@ def run(tier):
     jobs = ec.catalogue_jobs(seeds=(1, 2) if tier == 'quick' else (1, 2, 3, 4, 5, 6))
     jobs += ec.random_jobs(rnd, n, gen_kw=dict(p_join=0.95, p_cmd=0.05), label='join')
     jobs += ec.reverse_jobs(rnd, 20 if tier == 'quick' else 300)
+    # shapes in which ONE completion affects two existing joins (too wide for the exhaustive budgets: real engine under every policy)
+    from harness import gen as _gen, engrun as _engrun
+    for _nm, _P in _gen.wide_shapes():
+        for _sch in ('default', 'legacy'):
+            for _pol in _engrun.POLICIES[1:]:
+                jobs.append(dict(prog=_P, scheduler=_sch, policy=_pol, seed=1 + len(_nm), label=_nm))
     # a join whose long inbound branch breaks at every distance from the join
     from harness import gen, engrun
     for k, (nm, P) in enumerate(gen.long_branch_shapes()):
@@ -79,7 +85,10 @@ def run(tier):
                            'generated direct DAGs with all/one/N joins (incl. nested joins, joins fed by on-error/on-complete and by '
                            'guards that do not fire) and reverse requires-graphs, run on the real engine under both schedulers and 8 '
                            'schedule policies; joins fed by a 6-task branch that breaks at every distance; non-trivial = distinct runs in which at least one join with >= 2 inbound branches started or failed',
-                           _nontrivial, model_runs=lambda d: ec.catalogue_model_runs(d, tier), strict=True, prescribed=True, post=_statement_level(tier),
+                           _nontrivial, model_runs=lambda d: ec.catalogue_model_runs(d, tier) +
+                           # (two_joins: 18.6 M states under the default scheduler, 5.9 M under the legacy one - thorough tier only)
+                           (ec.catalogue_model_runs(d, tier, shapes=gen.wide_shapes()[:1], liveness_for=(), tag='_wide') if tier == 'thorough' else []),
+                           strict=True, prescribed=True, post=_statement_level(tier),
                            model_behaviours=lambda d: ec.model_jobs(d, tier, sims=[(None, 2 if tier == 'quick' else 10, 0, 0, ())],
                                                                     probes=[('join_started_twice', 'diamond_j1_ok', '\\E x \\in Names : IsJoin(x) /\\ Len(ax[x]) > 1', 0, 0, ())]))
 
